@@ -333,3 +333,163 @@ End WithRegexp.
 Definition zsum (l : list Z) : Z := foldr Z.add 0%Z l.
 Definition qcsum (l : list Qc) : Qc := foldr Qcplus 0%Qc l.
 Definition zmax_list (l : list Z) (d : Z) : Z := foldr Z.max d l.
+
+(* ======================================================================================== *)
+(* Configuration layer: NewTagHandlerFromViper / NewFilterFromViper.  The configuration file
+   is parsed by viper (TOML) into a tree; that parser is not modelled.  What is modelled is
+   what gostatsd asks of the tree: v.GetStringSlice("filters"), v.Sub("filter."+name),
+   GetStringSlice of the four list keys, GetBool of the two action keys - with the casts viper
+   applies (spf13/cast): a string where a list is expected is split on white space
+   (strings.Fields), a bool where a list is expected becomes ["true"]/["false"], a string
+   where a bool is expected goes through strconv.ParseBool and is false when that fails, a
+   list where a bool is expected is false, an absent key takes the default ([] / false).
+   Keys and filter names are case-insensitive (viper lower-cases them, ASCII modelled);
+   filter names containing '.' (a nested viper path) are outside the model. *)
+
+Inductive cval := VStr (s : str) | VList (l : list str) | VBool (b : bool).
+
+Record tag_config := MkCfg {
+  cfg_filters : option cval;                       (* the `filters` key *)
+  cfg_blocks : list (str * list (str * cval))      (* [filter.<name>] tables, in file order *)
+}.
+
+Definition is_space (c : N) : bool :=
+  (c =? 32)%N || (c =? 9)%N || (c =? 10)%N || (c =? 11)%N || (c =? 12)%N || (c =? 13)%N.
+
+(* strings.Fields on ASCII input; [cur] is the field being read, reversed *)
+Fixpoint fields_acc (cur : str) (s : str) : list str :=
+  match s with
+  | [] => match cur with [] => [] | _ => [rev cur] end
+  | c :: r => if is_space c
+              then match cur with [] => fields_acc [] r | _ => rev cur :: fields_acc [] r end
+              else fields_acc (c :: cur) r
+  end.
+Definition str_fields (s : str) : list str := fields_acc [] s.
+
+Definition lower_byte (c : N) : N := if (65 <=? c)%N && (c <=? 90)%N then (c + 32)%N else c.
+Definition str_lower (s : str) : str := map lower_byte s.
+
+Definition s_true : str := [116; 114; 117; 101]%N.
+Definition s_false : str := [102; 97; 108; 115; 101]%N.
+
+(* cast.ToStringSlice *)
+Definition to_string_slice (v : option cval) : list str :=
+  match v with
+  | None => []
+  | Some (VStr s) => str_fields s
+  | Some (VList l) => l
+  | Some (VBool b) => [if b then s_true else s_false]
+  end.
+
+(* strconv.ParseBool, errors as false (cast.ToBool drops the error) *)
+Definition parse_bool (s : str) : bool :=
+  existsb (str_eqb s) [[49]; [116]; [84]; s_true; [84; 82; 85; 69]; [84; 114; 117; 101]]%N.
+
+(* cast.ToBool *)
+Definition to_bool (v : option cval) : bool :=
+  match v with
+  | Some (VBool b) => b
+  | Some (VStr s) => parse_bool s
+  | _ => false
+  end.
+
+(* viper's case-insensitive key lookup, first match *)
+Fixpoint cfg_get {V} (k : str) (t : list (str * V)) : option V :=
+  match t with
+  | [] => None
+  | (k', v) :: r => if str_eqb (str_lower k') (str_lower k) then Some v else cfg_get k r
+  end.
+
+Definition k_match_metrics : str := [109;97;116;99;104;45;109;101;116;114;105;99;115]%N.
+Definition k_exclude_metrics : str := [101;120;99;108;117;100;101;45;109;101;116;114;105;99;115]%N.
+Definition k_match_tags : str := [109;97;116;99;104;45;116;97;103;115]%N.
+Definition k_drop_tags : str := [100;114;111;112;45;116;97;103;115]%N.
+Definition k_drop_metric : str := [100;114;111;112;45;109;101;116;114;105;99]%N.
+Definition k_drop_host : str := [100;114;111;112;45;104;111;115;116]%N.
+
+(* NewFilterFromViper up to toStringMatch: the pattern strings and flags of one block *)
+Definition raw_of_block (b : list (str * cval)) : raw_filter :=
+  MkRaw (to_string_slice (cfg_get k_match_metrics b)) (to_string_slice (cfg_get k_exclude_metrics b))
+        (to_string_slice (cfg_get k_match_tags b)) (to_string_slice (cfg_get k_drop_tags b))
+        (to_bool (cfg_get k_drop_metric b)) (to_bool (cfg_get k_drop_host b)).
+
+(* NewTagHandlerFromViper's loop: a name without a [filter.<name>] table is skipped (the code
+   logs "Filter doesn't exist" at warning level and continues) *)
+Definition raws_of_config (c : tag_config) : list raw_filter :=
+  omap (λ name, raw_of_block <$> cfg_get name (cfg_blocks c)) (to_string_slice (cfg_filters c)).
+
+Definition handler_of_config (re_ok : str → bool) (tags : list str) (c : tag_config) : res tag_handler :=
+  build_handler re_ok tags (raws_of_config c).
+
+(* ---- what FILTERING.md says a pattern string means, written on the spelling ------------- *)
+Inductive spelling :=
+| SpRegex (neg : bool) (q : str)     (* [!]regex:q  *)
+| SpPrefix (neg : bool) (q : str)    (* [!]q*       *)
+| SpExact (neg : bool) (q : str).    (* [!]q        *)
+
+Definition spelling_of (p : str) : spelling :=
+  let neg := str_has_prefix [c_bang] p in
+  let body := if neg then drop 1 p else p in
+  if str_has_prefix regex_marker body then SpRegex neg (drop 6 body)
+  else if ends_with_star body then SpPrefix neg (removelast body)
+  else SpExact neg body.
+
+(* does a string match a spelling; the only use of the regexp oracle *)
+Definition spelling_matches (re_match : str → str → bool) (sp : spelling) (s : str) : bool :=
+  match sp with
+  | SpRegex neg q => xorb (re_match q s) neg
+  | SpPrefix neg q => xorb (str_has_prefix q s) neg
+  | SpExact neg q => xorb (str_eqb s q) neg
+  end.
+
+(* ---- the regex-free fragment: a specification without any oracle ----------------------- *)
+Definition plain_match (sm : smatch) (s : str) : bool :=
+  if sm_prefix sm then xorb (str_has_prefix (sm_test sm) s) (sm_invert sm)
+  else xorb (str_eqb s (sm_test sm)) (sm_invert sm).
+
+Definition regex_free_filter (f : filter) : Prop :=
+  ∀ sm, sm ∈ f_match_metrics f ++ f_exclude_metrics f ++ f_match_tags f ++ f_drop_tags f → sm_regex sm = false.
+
+Definition plain_satisfied (f : filter) (name : str) (tags : list str) : bool :=
+  (match f_match_metrics f with [] => true | l => existsb (λ p, plain_match p name) l end)
+  && negb (existsb (λ p, plain_match p name) (f_exclude_metrics f))
+  && (match f_match_tags f with [] => true | l => existsb (λ t, existsb (λ p, plain_match p t) l) tags end).
+
+Definition plain_removed (fs : list filter) (name : str) (tags : list str) (t : str) : bool :=
+  existsb (λ f, plain_satisfied f name tags && existsb (λ p, plain_match p t) (f_drop_tags f)) fs.
+
+(* None = dropped; otherwise the new source and the tag list as it is stored (sorted) *)
+Definition plain_output (th : tag_handler) (name src : str) (tags : list str) : option (str * list str) :=
+  let fs := th_filters th in
+  if existsb (λ f, plain_satisfied f name tags && f_drop_metric f) fs then None
+  else Some (if existsb (λ f, plain_satisfied f name tags && f_drop_host f) fs then [] else src,
+             sort_tags (first_occ [] (List.filter (λ t, negb (plain_removed fs name tags t)) tags
+                                      ++ List.filter (λ t, negb (mem_str t tags && plain_removed fs name tags t)) (th_tags th)))).
+
+Definition regex_free (th : tag_handler) : Prop := ∀ f, f ∈ th_filters th → regex_free_filter f.
+
+(* the oracle-free specification of the Each callback of DispatchMetricMap *)
+Definition plain_rekey {V} (src_of : V → str) (tags_of : V → list str) (retag : V → str → list str → V)
+           (th : tag_handler) (e : skey * V) : option (skey * V) :=
+  match plain_output th e.1.1 (src_of e.2) (tags_of e.2) with
+  | None => None
+  | Some (src', stags) => Some ((e.1.1, tags_key src' stags), retag e.2 src' stags)
+  end.
+
+(* ---- vocabulary of the configuration theorems ------------------------------------------- *)
+Definition bang (neg : bool) : str := if neg then [c_bang] else [].
+
+(* the pattern asks for a regular expression that does not compile *)
+Definition pattern_invalid (re_ok : str → bool) (p : str) : bool :=
+  match spelling_of p with SpRegex _ q => negb (re_ok q) | _ => false end.
+
+Definition patterns_of_raw (r : raw_filter) : list str :=
+  r_match_metrics r ++ r_exclude_metrics r ++ r_match_tags r ++ r_drop_tags r.
+Definition config_patterns (c : tag_config) : list str := concat (map patterns_of_raw (raws_of_config c)).
+
+(* filter [f] is raw filter [r] with every pattern string turned into its matcher *)
+Definition filter_of_raw (re_ok : str → bool) (r : raw_filter) (f : filter) : Prop :=
+  let R := λ p sm, new_string_match re_ok p = Done sm in
+  Forall2 R (r_match_metrics r) (f_match_metrics f) ∧ Forall2 R (r_exclude_metrics r) (f_exclude_metrics f)
+  ∧ Forall2 R (r_match_tags r) (f_match_tags f) ∧ Forall2 R (r_drop_tags r) (f_drop_tags f)
+  ∧ f_drop_metric f = r_drop_metric r ∧ f_drop_host f = r_drop_host r.
